@@ -46,9 +46,10 @@ impl IPFix {
 //@   before "match ({ let i = __mr_o1;": proof {
 //@       let b = orig_i@;
 //@       assert(__mr_in@ == b.subrange(14, b.len() as int));
-//@       assert(length as int == msg_body_len(header));
-//@       lemma_sub_sub2(b, 14, b.len() as int, 0, length as int);
-//@       lemma_sub_sub2(b, 14, b.len() as int, length as int, b.len() - 14);
+//@       let ln = __mr_o1@.len() as int;      // the bytes `take(..)` handed to the body parser (no name of /repo's locals is used)
+//@       assert(ln == msg_body_len(header));
+//@       lemma_sub_sub2(b, 14, b.len() as int, 0, ln);
+//@       lemma_sub_sub2(b, 14, b.len() as int, ln, b.len() - 14);
 //@   }
 //@   ensures: ipfix_message_post(*old(parser), *final(parser), orig_i, r)
 //@   ensures: r is Ok ==> is_suffix(r->Ok_0.0@, orig_i@)
